@@ -54,8 +54,8 @@ Definition sym_stmt (s : stmt Z) : stmt sym :=
   end.
 
 Definition model_script (prog : list (stmt Z)) : string :=
-  let '(st, ok) := run sym SStd SConv SSwitch SBlack (compile sym (map sym_stmt prog)) (initial sym SBlack) in
-  sconcat (map (fun e => show_event e +++ "|") (out sym st)) +++ (if ok then "" else "ABORT").
+  let '(st, ok) := run sym SStd SConv SSwitch SBlack (compile sym (map sym_stmt prog)) (initial SBlack) in
+  sconcat (map (fun e => show_event e +++ "|") (out st)) +++ (if ok then "" else "ABORT").
 
 Definition model_shape : string :=
   show_bool shape_matrix_code_modelled +++ show_bool shape_as_raw_matrix_unrounded
